@@ -174,12 +174,13 @@ def build_http_config(rng, keyname="rsa1024_a", hostile=False, extras=True, allo
         (28, 2, u32(0)), (29, 3, m["spawnto_x86"].encode().ljust(64, b"\0")), (30, 3, m["spawnto_x64"].encode().ljust(64, b"\0")),
         (31, 1, struct.pack(">H", 0)), (37, 2, u32(m["watermark"])),
     ]
+    # present in every 4.x beacon and required by the library's client
+    m["host_header"] = rng.choice(["", "", "Host: cdn.example.com\r\n"])
+    s.append((54, 3, m["host_header"].encode().ljust(128, b"\0")))
     if extras:
         opt = []
         m["killdate"] = rng.choice([0, 20301231])
         opt.append((40, 2, u32(m["killdate"])))
-        m["host_header"] = rng.choice(["", "Host: cdn.example.com\r\n"])
-        opt.append((54, 3, m["host_header"].encode().ljust(128, b"\0")))
         m["cleanup"] = rng.choice([0, 1])
         opt.append((38, 1, struct.pack(">H", m["cleanup"])))
         m["startrwx"] = rng.choice([64, 4])
